@@ -121,6 +121,97 @@ def termination_devices(ctx, rule):
                             % n)
 
 
+def reverse_rules(ctx, r6):
+    """Reverse controller: RunTask only for satisfied tasks of the target's
+    dependency closure that have no execution; requires (task-defaults
+    merged) compared against SUCCESS tasks."""
+    prog = ctx.prog
+    fn = prog.func(RWC + '._find_next_commands')
+    runs = [x for x in own_nodes(fn.node) if isinstance(x, ast.Call) and
+            U.call_name(x) == 'RunTask']
+    comp = [x for x in own_nodes(fn.node) if isinstance(x, ast.ListComp)]
+    ok = bool(runs) and any(
+        any(y is runs[0] for y in ast.walk(c)) and
+        dotted(c.generators[0].iter) == 'task_specs' for c in comp) and any(
+        isinstance(x, ast.Assign) and dotted(x.targets[0]) == 'task_specs'
+        and '_find_task_specs_with_satisfied_dependencies' in norm(x.value)
+        for x in own_nodes(fn.node))
+    r6.check(ok, ctx.construct(fn), 'RunTask commands are not built from '
+             '_find_task_specs_with_satisfied_dependencies()', ctx.loc(fn))
+    fs = prog.func(RWC + '._find_task_specs_with_satisfied_dependencies')
+    comps = [x for x in own_nodes(fs.node) if isinstance(x, ast.ListComp)]
+    okf = False
+    for lc in comps:
+        g0 = lc.generators[0]
+        okf = okf or (
+            any(U.phas(i, 'self._is_satisfied_task(__t)') for i in g0.ifs)
+            and U.phas(g0.iter, '___.dfs_postorder_nodes(__g.reverse(), '
+                       'self._get_target_task_specification())'))
+    r6.check(okf, ctx.construct(fs),
+             'candidates are not the dependency closure of the target '
+             'filtered by _is_satisfied_task', ctx.loc(fs))
+    st = prog.func(RWC + '._is_satisfied_task')
+    cfg = ctx.cfg(st)
+    rets = [x for x in cfg.nodes if x.kind == 'stmt' and
+            isinstance(x.ast, ast.Return)]
+    first = None
+    for x in rets:
+        if U.guard_match(cfg, x, 'self._get_task_executions(*___)', True) \
+                or U.guard_match(cfg, x, 'self._get_task_executions(___)',
+                                 True) or any(
+                    t_ and '_get_task_executions' in norm(a_)
+                    for a_, t_ in U.guard_atoms(cfg, x)):
+            first = x
+    r6.check(first is not None and norm(first.ast.value) == 'False',
+             ctx.construct(st, extra='existing => not satisfied'),
+             'a task that already has an execution can be emitted again',
+             ctx.loc(st))
+    succ_sets = set()
+    for x in own_nodes(st.node):
+        if isinstance(x, ast.Call) and U.call_name(x) == 'add' and \
+                isinstance(x.func.value, ast.Name):
+            cn = cfg.node_of(x)
+            if U.guard_match(cfg, cn, '__e.state == states.SUCCESS', True):
+                succ_sets.add(x.func.value.id)
+    okr = any(isinstance(x, ast.Return) and any(
+        U.phas(x.value, 'not (set(self.wf_spec.get_task_requires(__s)) - '
+               + v + ')') for v in succ_sets) for x in own_nodes(st.node))
+    r6.check(bool(succ_sets) and okr,
+             ctx.construct(st, extra='requires all SUCCESS'),
+             'requires are not compared against SUCCESS tasks only',
+             ctx.loc(st))
+
+
+def cache_rule(ctx, r8):
+    """The execution cache is (re)loaded for the spec whose inbound tasks
+    are looked up in it."""
+    prog = ctx.prog
+    n8 = 0
+    for q, f in sorted(prog.funcs.items()):
+        if not q.startswith(DWC + '.'):
+            continue
+        loads = [n for n in own_nodes(f.node) if isinstance(n, ast.Call) and
+                 U.call_name(n) == '_prepare_task_executions_cache']
+        inb = [n for n in own_nodes(f.node) if isinstance(n, ast.Call) and
+               U.call_name(n) == 'find_inbound_task_specs']
+        if not loads or not inb:
+            continue
+        src = {norm(n.args[0]) for n in inb if n.args}
+        for c in loads:
+            n8 += 1
+            r8.check(bool(c.args) and norm(c.args[0]) in src,
+                     ctx.construct(f, c),
+                     'the cache is (re)loaded for %s but the inbound tasks '
+                     'looked up in it are those of %s: executions of those '
+                     'tasks are missing from the cache and are taken for '
+                     '"not started yet" (a dead route looks possible, the '
+                     'join waits for ever)'
+                     % (norm(c.args[0]) if c.args else None, sorted(src)),
+                     ctx.loc(f, c))
+    if n8 < 2:
+        raise AnalysisError('C04.R8: cache loads not found')
+
+
 def run(ctx):
     prog, sd = ctx.prog, ctx.sd
     S = sd.consts
@@ -330,88 +421,12 @@ def run(ctx):
     # ---- R6 reverse workflow -------------------------------------------------
     r6 = ctx.rule('R6', 'reverse controller only emits satisfied, not yet '
                   'existing tasks the target depends on', 'GD')
-    fn = prog.func(RWC + '._find_next_commands')
-    runs = [x for x in own_nodes(fn.node) if isinstance(x, ast.Call) and
-            U.call_name(x) == 'RunTask']
-    comp = [x for x in own_nodes(fn.node) if isinstance(x, ast.ListComp)]
-    ok = bool(runs) and any(
-        any(y is runs[0] for y in ast.walk(c)) and
-        dotted(c.generators[0].iter) == 'task_specs' for c in comp) and any(
-        isinstance(x, ast.Assign) and dotted(x.targets[0]) == 'task_specs'
-        and '_find_task_specs_with_satisfied_dependencies' in norm(x.value)
-        for x in own_nodes(fn.node))
-    r6.check(ok, ctx.construct(fn), 'RunTask commands are not built from '
-             '_find_task_specs_with_satisfied_dependencies()', ctx.loc(fn))
-    fs = prog.func(RWC + '._find_task_specs_with_satisfied_dependencies')
-    comps = [x for x in own_nodes(fs.node) if isinstance(x, ast.ListComp)]
-    okf = False
-    for lc in comps:
-        g0 = lc.generators[0]
-        okf = okf or (
-            any(U.phas(i, 'self._is_satisfied_task(__t)') for i in g0.ifs)
-            and U.phas(g0.iter, '___.dfs_postorder_nodes(__g.reverse(), '
-                       'self._get_target_task_specification())'))
-    r6.check(okf, ctx.construct(fs),
-             'candidates are not the dependency closure of the target '
-             'filtered by _is_satisfied_task', ctx.loc(fs))
-    st = prog.func(RWC + '._is_satisfied_task')
-    cfg = ctx.cfg(st)
-    rets = [x for x in cfg.nodes if x.kind == 'stmt' and
-            isinstance(x.ast, ast.Return)]
-    first = None
-    for x in rets:
-        if U.guard_match(cfg, x, 'self._get_task_executions(*___)', True) \
-                or U.guard_match(cfg, x, 'self._get_task_executions(___)',
-                                 True) or any(
-                    t_ and '_get_task_executions' in norm(a_)
-                    for a_, t_ in U.guard_atoms(cfg, x)):
-            first = x
-    r6.check(first is not None and norm(first.ast.value) == 'False',
-             ctx.construct(st, extra='existing => not satisfied'),
-             'a task that already has an execution can be emitted again',
-             ctx.loc(st))
-    succ_sets = set()
-    for x in own_nodes(st.node):
-        if isinstance(x, ast.Call) and U.call_name(x) == 'add' and \
-                isinstance(x.func.value, ast.Name):
-            cn = cfg.node_of(x)
-            if U.guard_match(cfg, cn, '__e.state == states.SUCCESS', True):
-                succ_sets.add(x.func.value.id)
-    okr = any(isinstance(x, ast.Return) and any(
-        U.phas(x.value, 'not (set(self.wf_spec.get_task_requires(__s)) - '
-               + v + ')') for v in succ_sets) for x in own_nodes(st.node))
-    r6.check(bool(succ_sets) and okr,
-             ctx.construct(st, extra='requires all SUCCESS'),
-             'requires are not compared against SUCCESS tasks only',
-             ctx.loc(st))
+    reverse_rules(ctx, r6)
 
     # ---- R8 the execution cache covers what is looked up -----------------------
     r8 = ctx.rule('R8', 'the task-execution cache is loaded for the spec '
                   'whose inbound tasks are looked up in it', 'AGREE')
-    n8 = 0
-    for q, f in sorted(prog.funcs.items()):
-        if not q.startswith(DWC + '.'):
-            continue
-        loads = [n for n in own_nodes(f.node) if isinstance(n, ast.Call) and
-                 U.call_name(n) == '_prepare_task_executions_cache']
-        inb = [n for n in own_nodes(f.node) if isinstance(n, ast.Call) and
-               U.call_name(n) == 'find_inbound_task_specs']
-        if not loads or not inb:
-            continue
-        src = {norm(n.args[0]) for n in inb if n.args}
-        for c in loads:
-            n8 += 1
-            r8.check(bool(c.args) and norm(c.args[0]) in src,
-                     ctx.construct(f, c),
-                     'the cache is (re)loaded for %s but the inbound tasks '
-                     'looked up in it are those of %s: executions of those '
-                     'tasks are missing from the cache and are taken for '
-                     '"not started yet" (a dead route looks possible, the '
-                     'join waits for ever)'
-                     % (norm(c.args[0]) if c.args else None, sorted(src)),
-                     ctx.loc(f, c))
-    if n8 < 2:
-        raise AnalysisError('C04.R8: cache loads not found')
+    cache_rule(ctx, r8)
 
     # ---- R7 termination devices ------------------------------------------------
     r7 = ctx.rule('R7', 'task-graph walks end on cyclic definitions',
